@@ -26,6 +26,7 @@ CALL = re.compile(r"\b(exec_git_stdin_with_env_with_profile|exec_git_stdin_with_
 WRAPPERS = {"exec_git", "exec_git_with_profile", "exec_git_stdin", "exec_git_stdin_with_profile",
             "exec_git_stdin_with_env", "exec_git_stdin_with_env_with_profile"}
 PROFILES = ["General", "PatchParse", "NumstatParse", "RawDiffParse"]
+PASSTHROUGH = []
 
 
 def _skip_string(s, k):
@@ -138,10 +139,11 @@ def _item_of_expr(L, e):
     m = re.match(r"format!\(\s*" + L.STR_LIT, e)
     if m:
         raw = m.group(1)
-        head = raw.split("{", 1)[0]
         if "{" not in raw:
             return ("lit", L.unescape(raw))
-        return ("head", L.unescape(head))
+        # the template with every {placeholder} replaced by code point 0 (never part of an argv token)
+        tmpl = re.sub(r"\{[^{}]*\}", "\x00", raw.replace("{{", "\x01").replace("}}", "\x02"))
+        return ("head", [123 if c == 1 else 125 if c == 2 else c for c in L.unescape(tmpl)])
     return ("dyn",)
 
 
@@ -229,7 +231,7 @@ def _pushes(cx, tail, var, fn):
         elif m.group(1) == "insert":
             raise L.GenError(f"{rel}: fn {fn}: {var}.insert(..) is not understood")
         else:
-            mm = re.fullmatch(r"\s*(?:&?vec!)?\[(.*)\]\s*(?:\.iter\(\)|\.into_iter\(\))?(?:\.map\(.*\))?\s*", expr, re.S)
+            mm = re.fullmatch(r"\s*(?:&?vec!)?\[(.*)\]\s*(?:\.\s*iter\(\)|\.\s*into_iter\(\))?\s*(?:\.\s*map\(.*\))?\s*,?\s*", expr, re.S)
             if mm and re.search(L.STR_LIT, mm.group(1)):
                 for x in _split_args(mm.group(1)):
                     items.append(_item_of_expr(L, x))
@@ -272,6 +274,7 @@ def scan_file(L, rel):
     spans = _fn_spans(s)
     cx = _Ctx(L, s, spans, rel)
     entries = []
+    passthrough = PASSTHROUGH
     for m in CALL.finditer(s):
         callee = m.group(1)
         before = s[max(0, m.start() - 4):m.start()]
@@ -307,6 +310,13 @@ def scan_file(L, rel):
             items = _array_items(L, am.group(1))
         else:
             raise L.GenError(f"{rel}: fn {name}: unrecognised argv expression {a0[:80]!r}")
+        rest = [it for it in items if it[0] != "globals"]
+        if rest and rest[0][0] in ("dyn", "dynlist"):
+            # a generic pass-through (`Repository::git(&self, args)`): understood only while nothing calls it
+            if not (rel == "src/git/repository.rs" and name == "git"):
+                raise L.GenError(f"{rel}: fn {name}: the git subcommand is not a literal")
+            passthrough.append((rel, name))
+            continue
         entries.append({"file": rel, "fn": name, "callee": callee, "profile": profile, "items": items,
                         "stdin": "stdin" in callee})
     return entries
@@ -325,11 +335,24 @@ def all_entries(L):
                     continue
                 rels.append(rel)
     out = []
+    del PASSTHROUGH[:]
+    texts = {}
     for rel in rels:
         txt = L.read_src(rel)
+        texts[rel] = txt
         if not CALL.search(txt):
             continue
         out.extend(scan_file(L, rel))
+    if PASSTHROUGH:
+        # `Repository::git(&self, args: &[&str])` forwards arbitrary arguments: accepted only while it has no
+        # caller outside tests (a caller would be an invocation the inventory cannot see)
+        for rel, txt in texts.items():
+            try:
+                s = _blank_test_items(L, L.strip_comments(txt), rel)
+            except L.GenError:
+                s = L.strip_comments(txt)         # conservative: test code of that file is searched too
+            for m in re.finditer(r"\.\s*git\(\s*&\s*\[", s):
+                raise L.GenError(f"{rel}: Repository::git(&[..]) is called outside tests: invocation not inventoried")
     return out
 
 
@@ -338,7 +361,7 @@ def summarise(e):
         if it[0] == "lit":
             return "".join(chr(c) for c in it[1])
         if it[0] == "head":
-            return "".join(chr(c) for c in it[1]) + "<..>"
+            return "".join(chr(c) if c else "<..>" for c in it[1])
         return {"globals": "<G>", "dyn": "<?>", "dynlist": "<*>"}[it[0]]
     return f"{e['file']}::{e['fn']} [{e['profile']}] " + " ".join(show(i) for i in e["items"])
 
@@ -350,7 +373,7 @@ def generate(L):
     out = ["Inductive inv_item :=",
            "  | IGlobals                      (* the repository's global args (-C root ... --no-pager) *)",
            "  | ILit (s : list N)             (* a literal token *)",
-           "  | IHead (s : list N)            (* format!: literal head followed by a computed tail *)",
+           "  | IHead (s : list N)            (* format!: the template, every {placeholder} replaced by code point 0 *)",
            "  | IDyn                          (* one computed token *)",
            "  | IDynList.                     (* any number of computed tokens *)",
            "Record inv_entry := mk_inv { inv_file : list N; inv_fn : list N; inv_profile : N; inv_stdin : bool;",
